@@ -17,18 +17,25 @@ RULE = ("Sub-checks point_to_point / vertex_set / border: one query per case on 
         "Attribute weight objects are reused), interleaved (10% of steps) with in-place edits of vertex coordinates (uniform "
         "rescale or moved vertices) or of entries of the custom weight objects; every query is validated against the "
         "reference for the state at that moment, and after every call the mesh, the targets argument and all weight objects "
-        "are compared with snapshots. Meshes: polylines (paths, cycles, trees, random simple graphs, lattice graphs with "
+        "are compared with snapshots; a quarter of the histories alternate between two independent mesh objects with the same "
+        "connectivity but other coordinates and swapped weight tables; other history steps call attributes.edge_length "
+        "(persistent 'length' attribute, stale after the next geometry edit) or add unrelated attributes, and half of the "
+        "queries have their returned lists / dicts / polyline overwritten by the caller afterwards. Single-query cases may "
+        "carry such attributes too (edge_length then an anisotropic rescale; a user-filled edge attribute 'length'; a dozen "
+        "attributes named weight / distance / visited / parent ...). 1 case in 200 uses a jittered grid / lattice of more than "
+        "1000 vertices. Meshes: polylines (paths, cycles, trees, random simple graphs, lattice graphs with "
         "integer coordinates, wheels/ladders; optional second component and isolated vertices; random relabelling and edge "
         "orientation), surfaces (vlib.gen_surface.surfaces, <=40 faces, incl. disjoint unions, tori, polygons; Delaunay disks "
         "<=30 points; for border queries closed surfaces are mostly punctured by removing 1-2 faces so that the start can be "
         "several edges away from the border) and tet meshes (vlib.gen_tets.tets, <=25 cells); coordinates uniformly scaled by "
-        "1, 1e-3, 1e-6, 1e3 or 1e6; integral coordinates optionally stored as int64 rows. Entry points shortest_path (target "
-        "as int / list / set / tuple / numpy array, 1-6 targets, duplicates in lists, start among the targets, whole "
+        "1, 1e-3 .. 1e-12 or 1e3 .. 1e12; integral coordinates optionally stored as int64 rows. Entry points shortest_path (target "
+        "as int / list / set / tuple / numpy array / one-shot iterator, 1-6 targets, duplicates in lists, start among the targets, whole "
         "component), shortest_path_to_vertex_set (1-6 targets incl. singletons, start in the set, optionally extra members in "
         "other components) and shortest_path_to_border (start in a bordered component, incl. start on the border; closed "
         "surfaces must raise the documented exception). Vertex ids as Python ints or numpy.int64. Weights: omitted, 'length', "
         "'one', dict, sparse Attribute (all written / only non-zeros written) and dense Attribute, with values from {0..3}, "
-        "zero-heavy, all-zero, all-equal, dyadic, uniform floats and 6 decades wide, optionally scaled by 1e-6 / 1e6; "
+        "zero-heavy, all-zero, all-equal, dyadic, uniform floats and 6 decades wide, optionally scaled by 1e-6 .. 1e-15 or 1e6 .. 1e12 (dict insertion order "
+        "shuffled); "
         "export_path_mesh on/off/omitted. Oracle: Bellman-Ford distances from the case's own edge list. non-trivial = some "
         "requested target (some nearest border vertex) of some query is joined to the start by >= 2 distinct simple paths; "
         "distinct = distinct realised cases.")
@@ -36,7 +43,11 @@ ASSUMPTIONS = ["graphs are simple (no loops, no parallel edges); surfaces / tet 
                "weights are finite and non-negative and a custom weight is supplied for every edge id of the mesh's edge container",
                "every point-to-point target lies in the start's component; a set/border query has at least one reachable member",
                "start / collection members are Python ints or numpy.int64; a scalar target is a Python int (as documented); "
-               "target collections are list / set / tuple / 1-d integer numpy array",
+               "target collections are list / set / tuple / 1-d integer numpy array / an iterator over such ids",
+               "weights and coordinates may have any magnitude between 1e-18 and 1e15 (tolerances are relative to the largest weight "
+               "/ distance involved); integer-typed coordinates stay below 2^24",
+               "edge / vertex attributes stored on the mesh under any name (e.g. 'length') are not inputs of a query: "
+               "weights='length' means the Euclidean length of the edges at the time of the call",
                "between two queries a caller may assign new coordinates to mesh.vertices[i] and new values to entries of its own "
                "weight dict / Attribute; the next query must answer for the current state"]
 
@@ -156,7 +167,7 @@ def punctured(draw, s):
 @st.composite
 def meshes(draw, kinds=("polyline", "polyline", "surface", "surface", "volume")):
     kind = draw(st.sampled_from(list(kinds)))
-    if draw(st.integers(0, 199)) == 0 and kind != "volume":
+    if random.Random(draw(st.integers(0, 10 ** 6))).random() < 0.012 and kind != "volume":   # (integer draws are biased to 0)
         return large_mesh(draw(st.integers(0, 10 ** 6)), "polyline" if kind == "polyline" else "surface")
     if kind == "polyline":
         return draw(polylines())
@@ -1094,10 +1105,10 @@ def self_test():
 
 
 SUBCHECKS = [
-    SubCheck("point_to_point", query_case("p2p"), fn, quick=2500, thorough=5000),
-    SubCheck("vertex_set", query_case("set"), fn, quick=2000, thorough=4000),
-    SubCheck("border", query_case("border"), fn, quick=1200, thorough=2500),
-    SubCheck("history", history_case(), fn_history, quick=2500, thorough=5000),
+    SubCheck("point_to_point", query_case("p2p"), fn, quick=2000, thorough=5000),
+    SubCheck("vertex_set", query_case("set"), fn, quick=1600, thorough=4000),
+    SubCheck("border", query_case("border"), fn, quick=1000, thorough=2500),
+    SubCheck("history", history_case(), fn_history, quick=2000, thorough=5000),
 ]
 
 MATCHERS = {}
